@@ -173,6 +173,10 @@ def run_text(case, rec):
         return obs_key(o)
     doc = jsonstrict.to_python(tree)
     alts = ref.expected(doc, c01.REF_TABLE)
+    if jsonstrict.depth(tree) > 500:
+        # L5: valid JSON nested deeper than the interpreter may be able to parse: -32700 / -32600 with id null (nothing executed)
+        # are accepted besides the value-level answer
+        alts = alts + [(dict(id=None, code=c, exact=None), []) for c in (-32700, -32600)]
     problems = ref.match_any(o['answer'], o['calls'], alts)
     if problems is not None:
         rec.violation('C03:text:ref:%s' % norm(problems[-1]), case, expected=[a for a, _ in alts],
